@@ -72,7 +72,10 @@ def _case(draw):
         forms = ["http", "https", "wap", "waphdr"]
     return {"pos": pos, "payload": _pq(draw(payload_st), draw(st.sampled_from([0, 0, 0, 0, 0, 0, 1, 2]))),
             "form": draw(st.sampled_from(forms)), "n": draw(st.integers(0, 999)),
-            "fill": draw(st.sampled_from([0, 0, 13]))}
+            "fill": draw(st.sampled_from([0, 0, 13])),
+            # the administrator's page header (option 'pagetopper', into which the page's gopher URL is interpolated) may quote
+            # its attribute with apostrophes, or not at all
+            "topper": draw(st.sampled_from([None, None, None, "apos", "bare"]))}
 
 
 def strategy(tier):
@@ -210,11 +213,18 @@ def _build(pos, v, n, fill=0):
     return spec, sel
 
 
+_TOPPERS = {"apos": "Browse <A HREF='GOPHERURL'>this page in Gopher</A>.<HR>", "bare": "Browse <A HREF=GOPHERURL>this page in Gopher</A>.<HR>"}
+_topper = [None]  # set per case (both fetches of a case use the same page header)
+
+
 def _fetch(pos, v, n, form, fill=0):
     spec, sel = _build(pos, v, n, fill)
     base, root = world.build(spec)
     try:
-        cfg = drive.make_config(root, "shipped", **{"handlers.dir.DirHandler::cachetime": "0"})
+        over = {"handlers.dir.DirHandler::cachetime": "0"}
+        if _topper[0]:
+            over["protocols.http.HTTPProtocol::pagetopper"] = _TOPPERS[_topper[0]]
+        cfg = drive.make_config(root, "shipped", **over)
         tls, fam = clients.FORMS[form]
         selb = world.b(sel)
         if form == "gbang":
@@ -276,6 +286,9 @@ def _found(body, payload):
 def check_case(case, ctx):
     pos, form = case["pos"], case["form"]
     tls, fam = clients.FORMS[form]
+    _topper[0] = case.get("topper")
+    if _topper[0]:
+        ctx.label("pagetopper:" + _topper[0])
     p = _fit(pos, case["payload"], fam)
     if p is None:
         ctx.label("payload-unfit")
